@@ -534,3 +534,5 @@ def check(run, prog):
     rule_toplevel_comment(run, prog)     # R-19.6
     from .c14_history import rule_history_append_only
     rule_history_append_only(run, prog, "R-19.7")
+    from .c19_comment_before_brace import rule_comment_before_brace
+    rule_comment_before_brace(run, prog)  # R-19.8
